@@ -7,7 +7,7 @@ def run(tier):
     run, fx = start("C26", tier,
         "T10 check-then-act rule on BeanFactory::{get_instance, init_bean, get_or_default, get_mut_or_default}: publication through compare_exchange / "
         "DashMap::entry only, the returned reference derives from the published value; T5 constant bean names per shared type.",
-        ["core/default"] + (["core/preemptive"] if tier == "thorough" else []),
+        ["core/default", "core/preemptive"],  # the monitor bean only exists under `preemptive`
         not_decided=["nothing further: with the rule in place uniqueness follows from DashMap's / the atomics' contract"],
         assumptions=["DashMap::entry holds the shard lock across or_insert_with", "compare_exchange is atomic"])
     for name, f in fx.items():
